@@ -1,6 +1,7 @@
 package props
 
 import (
+	"strconv"
 	"fmt"
 	"math/big"
 	"strings"
@@ -21,7 +22,7 @@ func init() {
 			"SIGNED-SPAN what the server sends is B | Sign(B[2:], static key) for the very B sent, i.e. the signature covers exactly the span the client verifies; AUTH every return of the client parser with a nil error is dominated by: the freshness test (equivalent to |now - t| <= 86400 for clocks at least one day after the epoch), glow.Verify(contacted server's key, reply[:len-64], reply[len-64:]), " +
 			"reply key == the device's own public key, (new GCA == 0) or glow.Verify(current GCA, 'EquipmentMigration' | key | reply[540:len-136], reply[len-136:len-72]), and, for every parsed server entry, glow.Verify(new GCA if present else current GCA, entry.SigningBytes(), entry.GCAAuthorization); " +
 			"PURE the parser has no write effect on the client's state, and the caller uses its results only on the err == nil edge (C17). " +
-			"NOT decided: behaviour for replies longer than the 16-bit length prefix allows (server-side truncation of the length; noted), cryptographic strength.",
+			"every entry of the server list is appended to the reply on every path through the server loop (banned ones included) and the fields of an entry are written and read in the same order, width and byte order; on the client no path through the verification loop avoids the per-entry Verify and the loop is left only at its end or with an error. NOT decided: behaviour for replies longer than the 16-bit length prefix allows (server-side truncation of the length; noted), cryptographic strength.",
 		Assumptions: append([]string{"glow.Verify is sound (trusted)", "the system clock is at least one day after the Unix epoch (so now-86400 does not wrap in uint64)"}, baseAssumptions...),
 		Run:         runC10,
 	})
@@ -316,6 +317,44 @@ func perServerVerify(c *an.Ctx, parser *ssa.Function, gcaKey *an.Term) {
 			entry = entry.A[0]
 		}
 		okSig := st.Key() == fi.FieldOfTerm(entry, "GCAAuthorization").Key()
+		// the key may be chosen beforehand (signer := gcaKey; if newGCA != blank { signer = newGCA }): a phi whose
+		// incoming values are the two keys, each arriving over the edge on which the matching case holds
+		if ph, isPhi := kt.Val.(*ssa.Phi); isPhi && kt.K == an.KPhi && !nonBlank && !blank {
+			okPhi := len(ph.Edges) == 2
+			for i, e := range ph.Edges {
+				pred := ph.Block().Preds[i]
+				ef := an.FactSet{}
+				for k, f := range fi.FactsAtBlock(pred) {
+					ef[k] = f
+				}
+				for _, f := range fi.EdgeFacts(pred, ph.Block()) {
+					ef[f.Key()] = f
+				}
+				eNonBlank, eBlank := false, false
+				for _, f := range ef {
+					if f.T.K == an.KBin && (f.T.S == "!=" || f.T.S == "==") && !f.Neg {
+						for j := 0; j < 2; j++ {
+							if k, isC := f.T.A[j].IsConst(); isC && k == "nil" && f.T.A[1-j].K == an.KLoad && f.T.A[1-j].A[0].K == an.KAlloc {
+								if f.T.S == "!=" {
+									eNonBlank = true
+								} else {
+									eBlank = true
+								}
+							}
+						}
+					}
+				}
+				et := fi.Term(e)
+				switch {
+				case et.Key() == gcaKey.Key():
+					okPhi = okPhi && eBlank
+				default:
+					okPhi = okPhi && eNonBlank && et.K == an.KLoad
+				}
+			}
+			c.Check(okPhi && okSig, "AUTH", parser, call.Pos(), key, "each server entry is verified with its own GCAAuthorization under a key chosen as: the NEW GCA's key when one is named, the CURRENT GCA's key otherwise", "key "+short(kt.Key())+" (phi of the two keys, each edge under its case)")
+			goto rejectsCheck
+		}
 		switch {
 		case nonBlank:
 			c.Check(kt.Key() != gcaKey.Key() && okSig, "AUTH", parser, call.Pos(), key, "when a new GCA is named, each server entry is verified under the NEW GCA's key with its own GCAAuthorization", "key "+short(kt.Key()))
@@ -324,6 +363,7 @@ func perServerVerify(c *an.Ctx, parser *ssa.Function, gcaKey *an.Term) {
 		default:
 			c.Violated("AUTH", parser, call.Pos(), key, "a server entry is verified without distinguishing whether a new GCA is named", "facts "+factList(facts))
 		}
+	rejectsCheck:
 		// a failed verification leads to an error return: the result feeds a branch whose false edge returns non-nil
 		rejects := false
 		var v ssa.Value = call
@@ -365,7 +405,7 @@ func perServerVerify(c *an.Ctx, parser *ssa.Function, gcaKey *an.Term) {
 		}
 	}
 	c.Count("AUTH-entries", n)
-	c.Floor("AUTH-entries", 2)
+	c.Floor("AUTH-entries", 1)
 	// the successful return happens only after the verification loop ran over all parsed entries:
 	// the loop ranges over the slice the parser returns
 	okLoop := false
@@ -403,28 +443,38 @@ func perServerVerify(c *an.Ctx, parser *ssa.Function, gcaKey *an.Term) {
 // replyLayout: the fixed regions the client reads.
 func replyLayout(c *an.Ctx, parser *ssa.Function, respBuf *an.Term) {
 	p := c.P
-	fi := p.Info(parser)
-	// collect slices of the reply buffer with constant bounds
-	got := map[string]bool{}
-	for _, b := range parser.Blocks {
-		for _, in := range b.Instrs {
-			sl, ok := in.(*ssa.Slice)
-			if !ok {
+	// the fixed regions the client reads, from the decoder's read events (width, byte order, offset);
+	// a decoder written with a running cursor has its offsets implied by the widths read so far
+	regions := func(evs []an.CodecEvent, op string) map[string]bool {
+		out := map[string]bool{}
+		next := -1
+		for _, e := range evs {
+			if e.Op != op || e.Width <= 0 {
+				if e.Op == op {
+					next = -1
+				}
 				continue
 			}
-			t := fi.Term(sl)
-			if t.A[0].Key() != respBuf.Key() {
+			off := -1
+			if strings.HasPrefix(e.Off, "#") {
+				if v, err := strconv.Atoi(e.Off[1:]); err == nil {
+					off = v
+				}
+			} else if e.Off == "" && next >= 0 {
+				off = next
+			}
+			if off < 0 {
+				next = -1
 				continue
 			}
-			lo, okl := t.A[1].IsConst()
-			hi, okh := t.A[2].IsConst()
-			if okl && okh {
-				got[lo+":"+hi] = true
-			}
+			out[fmt.Sprintf("%d:%d%s", off, e.Width, e.Order)] = true
+			next = off + e.Width
 		}
+		return out
 	}
-	for _, w := range []string{"0:32", "32:36", "36:540", "540:572", "572:576"} {
-		c.Check(got[w], "CODEC", parser, parser.Pos(), an.KeyOf(parser, "reads:"+w), "the client reads the fixed reply region ["+w+"]", "constant-bound slices of the reply: "+keysOf(got))
+	got := regions(p.CodecEvents(parser), "R")
+	for _, w := range []string{"0:32", "32:4LE", "36:504", "540:32", "572:4LE"} {
+		c.Check(got[w], "CODEC", parser, parser.Pos(), an.KeyOf(parser, "reads:"+w), "the client reads the fixed reply region offset:width(byte order) "+w+" (key 0:32, window offset 32:4 LE, bitfield 36:504, new GCA 540:32, new id 572:4 LE)", "fixed-offset reads of the reply: "+keysOf(got))
 	}
 	// the server writes the same regions shifted by 2
 	var handler *ssa.Function
@@ -440,25 +490,32 @@ func replyLayout(c *an.Ctx, parser *ssa.Function, respBuf *an.Term) {
 		return
 	}
 	hfi := p.Info(handler)
-	wrote := map[string]bool{}
-	for _, b := range handler.Blocks {
-		for _, in := range b.Instrs {
-			sl, ok := in.(*ssa.Slice)
-			if !ok {
+	wrote := regions(p.CodecEvents(handler), "W")
+	for _, w := range []string{"2:32", "34:4LE", "38:504"} {
+		c.Check(wrote[w], "CODEC", handler, handler.Pos(), an.KeyOf(handler, "writes:"+w), "the server writes the fixed reply region offset:width(byte order) "+w+" (the client's offset plus the 2-byte length prefix, same width and byte order)", "fixed-offset writes of the reply buffer: "+keysOf(wrote))
+	}
+	// the per-server entry: the fields the server's inline writer emits and the fields the client's inline reader
+	// consumes agree in order, width and byte order (key | flag | length | location | http | tcp | udp | authorization)
+	entrySeq := func(evs []an.CodecEvent, op string) []string {
+		var out []string
+		for _, e := range evs {
+			if e.Op != op {
 				continue
 			}
-			t := hfi.Term(sl)
-			lo, okl := t.A[1].IsConst()
-			hi, okh := t.A[2].IsConst()
-			if okl && okh && (t.A[0].K == an.KMake || t.A[0].K == an.KAlloc || (t.A[0].K == an.KSlice && t.A[0].A[0].K == an.KAlloc)) {
-				wrote[lo+":"+hi] = true
+			switch e.Field {
+			case "Location", "HttpPort", "TcpPort", "UdpPort", "GCAAuthorization":
+				out = append(out, e.Sig())
+			case "PublicKey":
+				if op == "R" || e.Off == "#0" {
+					out = append(out, e.Sig())
+				}
 			}
 		}
+		return out
 	}
-	for _, w := range []string{"2:34", "34:38", "38:542"} {
-		c.Check(wrote[w], "CODEC", handler, handler.Pos(), an.KeyOf(handler, "writes:"+w), "the server writes the fixed reply region ["+w+"] (client offset + 2-byte length prefix)", "constant-bound slices of the reply buffer: "+keysOf(wrote))
-	}
-	c.Count("CODEC", 8)
+	ws, rs := entrySeq(p.CodecEvents(handler), "W"), entrySeq(p.CodecEvents(parser), "R")
+	c.Check(len(ws) >= 6 && strings.Join(ws, " ") == strings.Join(rs, " "), "CODEC", handler, handler.Pos(), an.KeyOf(handler, "entry-fields-agree"), "server entry fields are written by the server and read by the client in the same order, width and byte order", "server writes ["+strings.Join(ws, " ")+"], client reads ["+strings.Join(rs, " ")+"]")
+	c.Count("CODEC", 9)
 	signedSpan(c, handler)
 	// every element of the authorized-server list is appended to the reply
 	okAll, nLoops := true, 0
